@@ -400,14 +400,22 @@ func genAst(repo, outDir string) error {
 				}
 				for _, s := range gd.Specs {
 					vs := s.(*ast.ValueSpec)
-					for _, n := range vs.Names {
+					for ni, n := range vs.Names {
 						kind, ty := "unknown", ""
+						val := ""
+						if ni < len(vs.Values) {
+							if bl, ok := vs.Values[ni].(*ast.BasicLit); ok && bl.Kind == token.STRING {
+								if u, err := unquote(bl.Value); err == nil {
+									val = u
+								}
+							}
+						}
 						if d.info != nil {
 							if obj := d.info.ObjectOf(n); obj != nil {
 								kind, ty = kindOf(obj.Type()), obj.Type().String()
 							}
 						}
-						varDefs = append(varDefs, fmt.Sprintf("mkVar %s %s %s %s %s", coqStr(p.name), coqStr(n.Name), coqStr(ty), coqStr(kind), coqBool(gd.Tok == token.CONST)))
+						varDefs = append(varDefs, fmt.Sprintf("mkVar %s %s %s %s %s %s", coqStr(p.name), coqStr(n.Name), coqStr(ty), coqStr(kind), coqBool(gd.Tok == token.CONST), coqStr(val)))
 					}
 				}
 			}
